@@ -13,7 +13,7 @@ use crate::data_model::Tables;
 use crate::execution::execution_engine::{ExecutionConfig, ExecutionEngine, ExecutionOutput};
 use crate::execution::{ExecutionResult, ResultRow};
 use crate::model::{AggregateStatement, SelectStatement, Statement};
-use crate::verif_kani::shim::io::{BufReader, SymFile, FILES, MAX_FILE, READ_BUDGET, READ_CALLS};
+use crate::verif_kani::shim::io::{BufReader, SymFile, FILES, MAX_FILE, READ_BUDGET};
 
 use super::{DisplayOptions, ExecutionStatistics, FileExecutor, OutputFormat, OutputPrinter, Printer};
 
@@ -58,6 +58,13 @@ fn stub_engine_execute<'a>(_this: &mut ExecutionEngine<'a>, line: String, config
     Ok(ExecutionOutput::empty())
 }
 
+/// ExecutionEngine::execute_joined_table: the statements of these harnesses have no JOIN (loading a joined file
+/// clones table definitions, i.e. compiled regexes, and is outside C12 / C19)
+fn stub_execute_joined_table<'a>(_this: &mut ExecutionEngine<'a>, _running: Arc<AtomicBool>) -> ExecutionResult<()> where 'a: 'a {
+    std::mem::forget(_running);
+    Ok(())
+}
+
 struct NullPrinter;
 impl Printer for NullPrinter {
     fn println(&mut self, _line: &str) {}
@@ -74,7 +81,7 @@ fn aggregate_statement() -> ManuallyDrop<Statement> {
 fn reset_log() {
     unsafe {
         LOG_LEN = 0; LOG_OVERFLOW = false; RESULT_CALLS = 0; RESULT_AT = 0; LINES_AFTER_STOP = 0;
-        READ_BUDGET = 100; READ_CALLS = 0;
+        READ_BUDGET = 100;
     }
 }
 
@@ -132,7 +139,9 @@ macro_rules! executor_proof {
         #[kani::proof]
         #[kani::stub(alloc::fmt::format, crate::verif_kani::common::stub_format)]
         #[kani::stub(regex::Regex::new, crate::verif_kani::common::stub_regex_new)]
+        #[kani::stub(std::hash::RandomState::new, crate::verif_kani::common::stub_random_state_new)]
         #[kani::stub(crate::execution::execution_engine::ExecutionEngine::execute, stub_engine_execute)]
+        #[kani::stub(crate::execution::execution_engine::ExecutionEngine::execute_joined_table, stub_execute_joined_table)]
         $(#[$m])*
         fn $name() $body
     };
@@ -197,14 +206,15 @@ executor_proof! {
 // C19: the flag is cleared at an arbitrary point of the schedule: no line is consumed afterwards, no error,
 // and an aggregate statement still gets exactly one final-result call over the lines consumed.
 macro_rules! interrupt_harness {
-    ($name:ident, $aggregate:expr) => {
+    ($name:ident, $aggregate:expr, $fixed:expr) => {
         executor_proof! {
             #[kani::unwind(6)]
             fn $name() {
-                let c0 = any_content(false);
-                let c1 = any_content(false);
-                let l0: usize = kani::any();
-                let l1: usize = kani::any();
+                // $fixed: the two files are concrete ("a\na" and "a\n": 2 + 1 lines) and only the interrupt point is symbolic
+                let c0 = if $fixed { [b'a', b'\n', b'a', 0] } else { any_content(false) };
+                let c1 = if $fixed { [b'a', b'\n', 0, 0] } else { any_content(false) };
+                let l0: usize = if $fixed { 3 } else { kani::any() };
+                let l1: usize = if $fixed { 2 } else { kani::any() };
                 kani::assume(l0 <= 3 && l1 <= 2);
                 reset_log();
                 let stop_at: usize = kani::any();
@@ -237,8 +247,10 @@ macro_rules! interrupt_harness {
         }
     };
 }
-interrupt_harness!(c19_interrupt_select, false);
-interrupt_harness!(c19_interrupt_aggregate, true);
+interrupt_harness!(c19_interrupt_select, false, false);
+interrupt_harness!(c19_interrupt_aggregate, true, false);
+interrupt_harness!(c19_interrupt_point_select, false, true);
+interrupt_harness!(c19_interrupt_point_aggregate, true, true);
 
 
 // ------------------------------------------------------------------------------------------------
@@ -279,6 +291,7 @@ fn result_row(rows: usize, first_is_input: bool, cols: usize) -> ManuallyDrop<Re
 macro_rules! printer_proof {
     ($(#[$m:meta])* fn $name:ident() $body:block) => {
         #[kani::proof]
+        #[kani::stub(<crate::model::Value as std::clone::Clone>::clone, crate::verif_kani::common::stub_value_clone_scalar)]
         #[kani::stub(<crate::model::Value as std::fmt::Display>::fmt, crate::verif_kani::common::stub_value_display)]
         $(#[$m])*
         fn $name() $body
@@ -333,6 +346,27 @@ printer_proof! {
         }
         kani::cover!(rows1 == 1 && rows2 == 2, "c17 csv: 1 + 2 rows reachable");
     }
+}
+
+
+// sanity of the I/O shim under the real std::io::Lines: "a\na" gives the lines "a", "a" and then the end
+#[kani::proof]
+#[kani::unwind(6)]
+fn c12_shim_lines_sanity() {
+    use std::io::BufRead;
+    reset_log();
+    unsafe {
+        FILES[0] = SymFile { content: [b'a', b'\n', b'a', 0], len: 3, visible: 3, pos: 0, growing: false };
+    }
+    let reader = BufReader::new(unsafe { File::from_raw_fd(3) });
+    let mut lines = ManuallyDrop::new(reader.lines());
+    let l0 = ManuallyDrop::new(lines.next());
+    let l1 = ManuallyDrop::new(lines.next());
+    let l2 = ManuallyDrop::new(lines.next());
+    assert!(matches!(&*l0, Some(Ok(s)) if s.len() == 1 && s.as_bytes()[0] == b'a'), "shim: first line");
+    assert!(matches!(&*l1, Some(Ok(s)) if s.len() == 1 && s.as_bytes()[0] == b'a'), "shim: second line (unterminated)");
+    assert!(l2.is_none(), "shim: end of file");
+    kani::cover!(true, "shim sanity: end");
 }
 
 #[cfg(test)]
